@@ -289,7 +289,7 @@ func verifStoreOps(env *verifEnv, rng *rand.Rand) []verifOp {
 		newRoot := verifHash(rng)
 		addExt("StoreSector", "new-root", func(s *Store, ctl *verifFaultCtl, extFail bool) error {
 			return s.StoreSector(newRoot, func(storage.SectorLocation) error {
-				ctl.External()
+				ctl.External(extFail)
 				if extFail {
 					return errVerifExt
 				}
@@ -297,11 +297,11 @@ func verifStoreOps(env *verifEnv, rng *rand.Rand) []verifOp {
 			})
 		})
 		addExt("StoreSector", "known-root", func(s *Store, ctl *verifFaultCtl, extFail bool) error {
-			return s.StoreSector(roots0[0], func(storage.SectorLocation) error { ctl.External(); return nil })
+			return s.StoreSector(roots0[0], func(storage.SectorLocation) error { ctl.External(false); return nil })
 		})
 		addExt("MigrateSectors", "volume0", func(s *Store, ctl *verifFaultCtl, extFail bool) error {
 			_, failed, err := s.MigrateSectors(context.Background(), env.vols[0], 0, func(from, to storage.SectorLocation) error {
-				ctl.External()
+				ctl.External(extFail)
 				if extFail {
 					return errVerifExt
 				}
@@ -356,6 +356,22 @@ func verifCall(op verifOp, s *Store, ctl *verifFaultCtl, failAt, kind int, extFa
 	}()
 	trace, _, fired = ctl.Disarm()
 	return
+}
+
+// verifExtBetween: is the first callback of the reference trace outside a transaction?
+func verifExtBetween(ref string) bool {
+	in := false
+	for _, c := range ref {
+		switch c {
+		case 'B':
+			in = true
+		case 'C', 'R':
+			in = false
+		case 'E':
+			return !in
+		}
+	}
+	return false
 }
 
 func verifEligible(trace string) (n int) {
@@ -565,9 +581,9 @@ func TestVerifC09Store(t *testing.T) {
 				xpre := verifSnapshot(t, xs, xpath, env, true)
 				class, _, trace, _ := verifCall(op, xs, xctl, -1, verifFaultNone, true)
 				xpost := verifSnapshot(t, xs, xpath, env, true)
-				if i := strings.Index(trace, "e"); i >= 0 && !strings.Contains(ref[:strings.Index(ref, "E")], "B") || strings.LastIndex(ref[:strings.Index(ref, "E")], "C") > strings.LastIndex(ref[:strings.Index(ref, "E")], "B") {
+				if ei := strings.Index(trace, "e"); ei >= 0 && verifExtBetween(ref) {
 					// the data write sits between transactions: the model predicts the compensating transaction
-					j := strings.Count(trace[strings.Index(trace, "e"):], "X")
+					j := strings.Count(trace[ei:], "X")
 					em.Step(fmt.Sprintf("Call \"%s\" \"%s\" %d%%N (Some (%d%%N, ExtFail))", op.method, ref, refClass, j),
 						fmt.Sprintf("OCall %d%%N \"%s\" %s", class, trace, coqBool(verifVisibleDiff(xpre, xpost) != "")))
 				}
